@@ -74,6 +74,16 @@ func ifaceEq(x, y val) (bool, bool) {
 		return x.v == nil && y.v == nil, true
 	}
 	if reflect.TypeOf(x.v) != reflect.TypeOf(y.v) {
+		// a struct and a pointer (to anything), and two pointers of different depth, are never equal; other
+		// pairs of different dynamic type are left to goom's number/string/bool coercions (which also look
+		// through one pointer level)
+		tx, ty := reflect.TypeOf(x.v), reflect.TypeOf(y.v)
+		if tx.Kind() == reflect.Ptr && ty.Kind() == reflect.Struct || tx.Kind() == reflect.Struct && ty.Kind() == reflect.Ptr {
+			return false, true
+		}
+		if tx.Kind() == reflect.Ptr && ty.Kind() == reflect.Ptr && ptrDepth(tx) != ptrDepth(ty) {
+			return false, true
+		}
 		return false, false
 	}
 	if reflect.TypeOf(x.v).Kind() == reflect.Func {
@@ -107,6 +117,19 @@ var (
 )
 
 func intp(i int) *int { return &i }
+
+func ptrDepth(t reflect.Type) int {
+	n := 0
+	for t.Kind() == reflect.Ptr {
+		t = t.Elem()
+		n++
+	}
+	return n
+}
+
+func intpp(i int) **int { p := &i; return &p }
+
+func u8p(i uint8) *uint8 { return &i }
 
 // window is one backing array; its prefixes share the address of element 0.
 var window = []int{1, 2, 3}
@@ -150,7 +173,8 @@ func kinds() []*kind {
 		val{"float64(1)", float64(1)}, val{"float64(0.5)", 0.5}, val{"float32(1)", float32(1)}, val{`"1"`, "1"}, val{`""`, ""}, val{`"a"`, "a"}, val{"true", true}, val{"false", false},
 		val{"S{1,x}", S{1, "x"}}, val{"S{2,x}", S{2, "x"}},
 		val{"&S{1,x}", &S{1, "x"}}, val{"&S{1,x}#2", &S{1, "x"}}, val{"&S{2,x}", &S{2, "x"}}, val{"(*S)(nil)", (*S)(nil)}, val{"&int(1)", intp(1)}, val{"(*int)(nil)", (*int)(nil)},
-		val{"F1", F1}, val{"F2", F2}, val{"(func(int) int)(nil)", (func(int) int)(nil)})
+		val{"F1", F1}, val{"F2", F2}, val{"(func(int) int)(nil)", (func(int) int)(nil)},
+		val{"&&int(1)", intpp(1)}, val{"&uint8(1)", u8p(1)})
 	add("error", new(error), ifaceEq, true, val{"nil", nil}, val{"&E{1}", &E{1}}, val{"&E{1}#2", &E{1}}, val{"&E{2}", &E{2}}, val{"(*E)(nil)", (*E)(nil)}, val{"EV{1}", EV{1}}, val{"EV{2}", EV{2}})
 	add("func", new(func(int) int), funcEq, true, val{"nil", (func(int) int)(nil)}, val{"F1", F1}, val{"F2", F2})
 	add("*func", new(*func(int) int), funcPtrEq, true, val{"nil", (*func(int) int)(nil)}, val{"&F1", fnp(F1)}, val{"&F1#2", fnp(F1)}, val{"&F2", fnp(F2)})
